@@ -342,7 +342,8 @@ def FileSystem.make (m : Media) (fmt : Format) (geom : Geometry) (ndebug : Bool)
 
 /-- `FileSystem::mount` -/
 def FileSystem.mount (fs : FileSystem) (key : Option Nat) : Option Volume :=
-  let key' := if fs.vols.length > 1 && key.isNone then some 65 else key
+  -- on an Opus DDOS disc (however many volumes it has) drive N means volume NA
+  let key' := if fs.fmt == Format.OpusDDOS && key.isNone then some 65 else key
   (fs.vols.find? (fun p => p.1 == key')).map (·.2)
 
 /-- `FileSystem::disc_sector_count` -/
@@ -490,9 +491,11 @@ def probeGeometry (m : Media) (fmt : Format) (total : Nat) (cands : List ImgFmt)
     avail ≥ total)
   let possible :=
     if possible.length > 1 then
-      possible.filter (fun ff =>
+      -- a tie-breaker only: it must not eliminate every remaining geometry (after the repair)
+      let withOther := possible.filter (fun ff =>
         if ff.geom.heads == 1 then true
         else hasValidDfsCatalog m (ff.geom.sectors * (if ff.interleaved then 1 else ff.geom.cylinders)))
+      if withOther.isEmpty then possible else withOther
     else possible
   minElement fmtLess possible
 
